@@ -239,7 +239,44 @@ class Program:
             for mem in sd.get("members", []):
                 m.setdefault(mem["idx"], []).append(mem)
             self._field_names[sn] = m
+        # names for anonymous nested aggregates, recovered through the parent's debug info
+        self.bitfields = {}  # (parent struct, parent field name) -> list of sub members
+        for sn, sd in list(self.structs.items()):
+            for mem in sd.get("members", []):
+                sub = mem.get("sub")
+                if not sub:
+                    continue
+                self.bitfields[(sn, mem["name"])] = sub
+                fty = sd["fields"][mem["idx"]]["ty"] if mem["idx"] < len(sd["fields"]) else ""
+                if fty.startswith("%struct.anon") or fty.startswith("%union.anon"):
+                    an = fty[1:]
+                    ad = self.structs.get(an)
+                    if ad and an not in self._field_names_named(an):
+                        m = {}
+                        for sm in sub:
+                            off = sm["off_bits"] // 8
+                            idx = None
+                            for k, fl in enumerate(ad["fields"]):
+                                if fl["off"] <= off:
+                                    idx = k
+                            if idx is not None:
+                                m.setdefault(idx, []).append(sm)
+                        self._field_names[an] = m
         self._callers = None
+
+    def _field_names_named(self, an):
+        return {an} if self._field_names.get(an) else set()
+
+    def bitfield_name(self, struct, field, shift, mask):
+        """member of an anonymous bit-field group accessed as (load field >> shift) & mask"""
+        sub = self.bitfields.get((struct, field))
+        if not sub:
+            return None
+        width = bin(mask).count("1")
+        for sm in sub:
+            if sm["off_bits"] == shift and sm["size_bits"] == width:
+                return sm["name"]
+        return None
 
     # ---- lookup ----
     def fn(self, spec, required=True):
